@@ -10,8 +10,11 @@ EXPLANATION = (
     "worker reports under the id of the item it ran with result/exception not swapped, and the manager resolves the item "
     "popped under result_item.work_id with fields of that same result item (R-ID, role agreement by parameter name); a "
     "single dispatch site, on the manager thread, control-dependent on set_running_or_notify_cancel() == True, fed by a "
-    "consuming get, no re-queueing, no retry loop in the worker (R-ONCE). NOT decided (runtime values): map() == "
-    "builtin map for all chunk sizes and lengths, order preservation of the chunk chain, execution counts under respawn."
+    "consuming get, no re-queueing, no retry loop in the worker (R-ONCE); the shape of the three pure functions behind map() "
+    "(chunker: consecutive islices of one zip iterator until the first empty one; chunk runner: one fn(*args) per element, "
+    "in order, none filtered; chain: every element of every chunk result in order) and of their composition in map(), with "
+    "the accepted idioms enumerated and anything else refused (R-MAP-SHAPE). NOT decided (runtime values): value equality "
+    "of map() with builtin map as such, execution counts under respawn."
 )
 
 
@@ -21,5 +24,6 @@ def run(e, R, tier):
         Rt.r_once,
         L.r_drop_resolves,
         SC.r_scn_result,
+        Rt.r_map_shape,
     ])
     R.trust("Future.set_running_or_notify_cancel returns False iff the future was cancelled; Executor.map submits one call per element of zip(*iterables)")
